@@ -387,6 +387,13 @@ def api_prop(pid, quick_modes, thorough_modes):
         if pid == "C13":
             # what one compilation learnt about a Go type must not leak into the next one (host values of one Go type)
             conv_stage(run, pid, rel={"pairsecond", "panic_pair"})
+            # one parsed tree compiled for several environments: a later compilation must not change what an earlier
+            # callable computes (all three closure-producing back ends; sugar universe of short sources)
+            cases, n = run.generate("Gen_Front", "Gen_Front.cfg", mode="sugar", size=3 if tier == "thorough" else 2, idbase=500000)
+            obs = run.replay("desugar", cases=cases, name="desugar_reuse")
+            verdicts = run.validate("Trace_Desugar", obs)
+            run.triage("desugar", "Trace_Desugar", obs, verdicts, {"reuse", "total"}, key=front_key,
+                       nontrivial=lambda r: bool(r.get("obs", {}).get("parsed")))
         run.bounds = dict(universes=[dict(root=m[0], mode=m[2], size=m[3]) for m in modes])
         return finish(run, "model_checking", API_RULE, assumptions=["TLC's evaluation of the TLA+ operators is trusted",
                       "wall-clock promptness and process survival are observed by the harness watchdog, not by TLC"])
